@@ -10,7 +10,7 @@ CONSTANTS Nib = {0, 1, 15}
           NBatch = 0
           NKeys = 4
           Encs = {"nil"}
-          BOps <- OpsPool
+          BOps <- OpsPool6
           BatchLens = {4}
           BatchSet <- MCBatchSet
 INVARIANTS CanonInv WFInv BatchInv
